@@ -105,9 +105,8 @@ theorem tieA_channel_dl_update (mops : Gen.DynPlanFn.MaskFns) (hm : MaskOk mops)
         have hcf : 0 ≤ c.frequency := hfr c (by rw [← hs]; exact List.getElem_mem hlt)
         have hz : (c.frequency ≠ 0) = ((chanOf c).freq ≠ 0) := by apply propext; simp [chanOf]; omega
         have he : (freq = c.frequency) = (freq.toNat = (chanOf c).freq) := by apply propext; simp [chanOf]; omega
-        have hset : Rt.setIdx p.channels index (some { c with dl_frequency := if freq = c.frequency then none else some freq })
-            = some (p.channels.set index.toNat (some { c with dl_frequency := if freq = c.frequency then none else some freq })) := by
-          simp only [Rt.setIdx]; rw [if_pos ⟨hi, hlt⟩]
+        have hset : ∀ v, Rt.setIdx p.channels index v = some (p.channels.set index.toNat v) := by
+          intro v; simp only [Rt.setIdx]; rw [if_pos ⟨hi, hlt⟩]
         by_cases hfz : c.frequency = 0
         · have : (chanOf c).freq = 0 := by simp [chanOf, hfz]
           simp [hfz, this, pure, Except.pure, hplan, planOf]; cases rs; simp_all [planOf]
@@ -116,13 +115,12 @@ theorem tieA_channel_dl_update (mops : Gen.DynPlanFn.MaskFns) (hm : MaskOk mops)
           · by_cases heq : freq = c.frequency
             · subst heq
               have hpos : 0 < c.frequency := by omega
-              simp only [if_true] at hset
               simp [hfz, hfz', hfv, pure, Except.pure, hplan, planOf, hset, List.map_set, chanOf, hpos]
             · have heq' : ¬ freq.toNat = (chanOf c).freq := by rw [← he]; exact heq
               have heq'' : ¬ freq.toNat = c.frequency.toNat := heq'
               have hpos : 0 < c.frequency := by omega
-              simp only [heq, if_false] at hset
-              simp [hpos, heq'', hfz, hfz', hfv, pure, Except.pure, hplan, planOf, hset, heq, heq', List.map_set, chanOf]
+              have heqs : ¬ c.frequency = freq := fun h => heq h.symm
+              simp [hpos, heq'', heqs, hfz, hfz', hfv, pure, Except.pure, hplan, planOf, hset, heq, heq', List.map_set, chanOf]
           · have hfv : frequencyValid rs.id freq.toNat = false := by simpa using hfv
             simp [hfz, hfz', hfv, pure, Except.pure, hplan, planOf]; cases rs; simp_all [planOf]
 
